@@ -104,28 +104,41 @@ class Motion:
             self.array_derivatives = False
             self.c1 = np.zeros(3); self.c2 = np.zeros(3)
             self.amp = rng.normal(size=3) * moving
-            self.ph = np.pi / 2 - self.om * rest_at
             self.k1 = 0.0
-            self.phr = np.pi / 2 - self.w * rest_at
+        self.rest_at = rest_at
 
     # position
+    # (rest start: amp*(1 - cos(om*(t - t_rest))) and k2*(1 - cos(w*(t - t_rest))), whose first derivatives are EXACTLY zero at
+    # t_rest in floating point, as in the usual hand-written smooth start)
     def r(self, t):
+        if self.rest_at is not None:
+            return self.c0 + self.amp * (1.0 - np.cos(self.om * (t - self.rest_at)))
         return self.c0 + self.c1 * t + self.c2 * t * t + self.amp * np.sin(self.om * t + self.ph)
 
     def r_t(self, t):
+        if self.rest_at is not None:
+            return self.amp * self.om * np.sin(self.om * (t - self.rest_at))
         return self.c1 + 2 * self.c2 * t + self.amp * self.om * np.cos(self.om * t + self.ph)
 
     def r_tt(self, t):
+        if self.rest_at is not None:
+            return self.amp * self.om**2 * np.cos(self.om * (t - self.rest_at))
         return 2 * self.c2 - self.amp * self.om**2 * np.sin(self.om * t + self.ph)
 
     # angle function
     def f(self, t):
+        if self.rest_at is not None:
+            return self.k2 * (1.0 - np.cos(self.w * (t - self.rest_at)))
         return self.k1 * t + self.k2 * np.sin(self.w * t + self.phr)
 
     def f_t(self, t):
+        if self.rest_at is not None:
+            return self.k2 * self.w * np.sin(self.w * (t - self.rest_at))
         return self.k1 + self.k2 * self.w * np.cos(self.w * t + self.phr)
 
     def f_tt(self, t):
+        if self.rest_at is not None:
+            return self.k2 * self.w**2 * np.cos(self.w * (t - self.rest_at))
         return -self.k2 * self.w**2 * np.sin(self.w * t + self.phr)
 
     def A(self, t):
